@@ -179,7 +179,7 @@ struct Bounds
 inline Bounds boundsFor(bool thorough)
 {
   if (thorough)
-    return Bounds{4, 5, 3, 3, 3, 4, 3};
+    return Bounds{4, 5, 3, 3, 3, 3, 3};
   return Bounds{3, 4, 3, 2, 2, 3, 2};
 }
 
